@@ -15,6 +15,10 @@
                                  the slots of step 1 in identifier order, `ok dart t ; …`, a slot left at
                                  `(NULL_DART_ID, NaN)` printed `0 nan` (implementation: the hook
                                  `grisubal::verif::intersection_data` on a fresh nx × ny grid; model: `slotsOf`)
+    ogridg grisubal|capture <clip> <cx> <cy> <nv> x y … <nseg> a b … <npoi> p …
+                                 the overlapping grid the call chooses, origin-shift loop included: `ok ox oy nx ny`
+                                 (implementation: the call itself with `Clip::None`, then the bounding box of the returned
+                                 map; model: `detectOrientationIssue`, `overlappingGrid`)
     gids <nk> k… <n> (d t|0 nan)…  steps 2 + 3 on the session map for the slot vector given (implementation: the hook
                                  `grisubal::verif::intersection_darts`; model: `stepsTwoThree` with the iteration order
                                  `k…` of the `HashMap`, `nk = 0`: first-insertion order): `ok id …` / `panic`
@@ -76,6 +80,15 @@ def parsePairs : List String → Option (List (Nat × Nat))
       some ((a, b) :: r)
   | _ => none
 
+def parsePts : Nat → List String → Option (List (Rat × Rat) × List String)
+  | 0, rest => some ([], rest)
+  | n + 1, x :: y :: rest => do
+      let x ← parseRat x
+      let y ← parseRat y
+      let (r, rest') ← parsePts n rest
+      some ((x, y) :: r, rest')
+  | _, _ => none
+
 def parseSlots : List String → Option (List Slot)
   | [] => some []
   | d :: t :: rest => do
@@ -136,6 +149,29 @@ def topCapture (s : Sess) (toks : List String) : Option (Sess × String) :=
               | _ => some ({ s with m := m' }, "panic")
           | _, _ => some (s, "bad-op")
         | _, _ => some (s, "bad-op")
+  | "ogridg" :: cmd :: _clip :: cx :: cy :: nv :: rest =>
+      -- the grid `grisubal` / `capture_geometry` chooses: `detect_orientation_issue`, then `compute_overlapping_grid`
+      -- with `keep_all_poi = false` / `true` (origin-shift loop included)
+      if cmd ≠ "grisubal" ∧ cmd ≠ "capture" then some (s, "bad-op") else
+      match parseRat cx, parseRat cy, nv.toNat? with
+      | some cx, some cy, some nv =>
+        match parsePts nv rest with
+        | some (verts, ns :: rest') =>
+          match ns.toNat? with
+          | some ns =>
+            match parsePairs (rest'.take (2 * ns)) with
+            | some segs =>
+                if cx ≤ 0 ∨ cy ≤ 0 ∨ segs.length ≠ ns ∨ segs.any (fun p => p.1 ≥ nv ∨ p.2 ≥ nv) then some (s, "bad-op") else
+                if detectOrientationIssue segs then some (s, "err InconsistentOrientation in-boundary-inconsistency") else
+                match overlappingGrid verts segs cx cy (cmd = "capture") with
+                | .ok ox oy nx ny _ => some (s, s!"ok {ratStr ox} {ratStr oy} {nx} {ny}")
+                | .invalidShape msg => some (s, "err InvalidShape " ++ msg.replace " " "-")
+                | .panic => some (s, "panic")
+                | .diverges => some (s, "diverges")
+            | none => some (s, "bad-op")
+          | none => some (s, "bad-op")
+        | _ => some (s, "bad-op")
+      | _, _, _ => some (s, "bad-op")
   | ["ogrid", c, mn, mx] =>
       match parseRat c, parseRat mn, parseRat mx with
       | some c, some mn, some mx =>
